@@ -254,6 +254,9 @@ def run(pid, tier):
         prof = [rng.choice(types) for _ in range(rng.randint(6, 30))]
         recs.append(run_profile(f"r{k}", prof, rng))
     apalache_obligations(rep)
+    # beyond the listed properties: the tabulation functions (spec/Tabulate*.tla); observations only
+    from . import check_tabulate
+    check_tabulate.tabulate_part(rep, tier, rng)
     rejects, stats = core.validate_traces("Trace_Ballots", recs)
     rep.add_trace_stats("Trace_Ballots", stats)
     byid = {r["tid"]: r for r in recs}
